@@ -5,6 +5,7 @@
 package simsync
 
 import (
+	"sort"
 	"sync"
 
 	"verif.sim/simrt"
@@ -30,6 +31,7 @@ func (m *Mutex) Lock() {
 	}
 	simrt.WaitUntil("lock", func() bool { return !m.held })
 	m.held = true
+	track(m)
 }
 
 func (m *Mutex) Unlock() {
@@ -41,6 +43,7 @@ func (m *Mutex) Unlock() {
 		panic("simsync: unlock of unlocked mutex")
 	}
 	m.held = false
+	untrack(m)
 	simrt.Yield("unlock")
 }
 
@@ -52,6 +55,7 @@ func (m *Mutex) TryLock() bool {
 		return false
 	}
 	m.held = true
+	track(m)
 	return true
 }
 
@@ -153,4 +157,41 @@ func (p *Pool) Put(x any) {
 		p.owner, p.items = s, nil
 	}
 	p.items = append(p.items, x)
+}
+
+// Who holds which mutex, per run: lets a harness tell a lock that was leaked by
+// a task that has gone away from one that is merely contended.
+var (
+	heldBy    = map[*Mutex]string{}
+	heldSched *simrt.Sched
+)
+
+func track(m *Mutex) {
+	if heldSched != simrt.Active {
+		heldBy, heldSched = map[*Mutex]string{}, simrt.Active
+	}
+	name := "(main)"
+	if t := simrt.Cur(); t != nil {
+		name = t.Name
+	}
+	heldBy[m] = name
+}
+
+func untrack(m *Mutex) {
+	if heldSched == simrt.Active {
+		delete(heldBy, m)
+	}
+}
+
+// Held returns the names of the tasks that hold a mutex right now (sorted, with repetitions).
+func Held() []string {
+	if heldSched != simrt.Active {
+		return nil
+	}
+	var out []string
+	for _, n := range heldBy {
+		out = append(out, n)
+	}
+	sort.Strings(out)
+	return out
 }
